@@ -268,8 +268,6 @@ def run_scenario(sc: dict) -> RunResult:
         if sc["mode"] == "nowait":
             left, took = wait_dead(pre_handles)
             res.counts["dead_after_s"] = round(took, 3)
-            if res.counts["pre_shutdown_alive"]:
-                res.nontrivial.add(("killed-by-shutdown", tuple(sc["kinds"])))
             if left:
                 res.violations.append((
                     "process-survives-shutdown-nowait",
@@ -332,15 +330,11 @@ def run_scenario(sc: dict) -> RunResult:
         if timed_out and s[0] != "timeout":
             res.violations.append(("timeout-reported-as-result",
                                    f"{j} ({kind}): the time limit expired but result() gave {s[0]}: {s[1]!r}"))
-        if timed_out:
-            res.nontrivial.add(("timeout", kind))
         if expect == "timeout" and s[0] == "tuple" and sc["mode"] == "none":
             res.violations.append(("timeout-reported-as-result",
                                    f"{j} ({kind}, limit {timeout}s, no shutdown): result() gave a tuple {s[1]!r}"))
         if expect == "oserror" and s[0] != "oserror":
             res.violations.append(("popen-failure-not-reported", f"{j} ({kind}): result() gave {s[0]}"))
-        if expect == "oserror":
-            res.nontrivial.add(("popen-failure", kind))
         if kind == "quick" and sc["mode"] == "none" and s != ("tuple", ("ok\n", "", 0)):
             res.violations.append(("wrong-result", f"{j} (quick): result() gave {s!r}"))
     # timing-dependent observations: only counted
@@ -351,7 +345,6 @@ def run_scenario(sc: dict) -> RunResult:
             res.counts["accepted_after_shutdown_returned"] = res.counts.get("accepted_after_shutdown_returned", 0) + 1
     if shut.get("out", "").startswith("raised"):
         res.counts["shutdown_wait_raised"] = 1
-        res.nontrivial.add(("shutdown-raised", sc["mode"]))
     if sc["mode"] == "wait" and shut.get("out") == "returned" and sequenced:
         notdone = [j for j in jobs if not futs[j].done()]
         if notdone:
@@ -370,9 +363,7 @@ def run_scenario(sc: dict) -> RunResult:
                 h.kill()
             except psutil.Error:
                 pass
-    if st.descendants:
-        res.nontrivial.add(("process-tree", tuple(sorted(set(sc["kinds"])))))
-    res.nontrivial.add((sc["style"], sc["mode"], tuple(sorted(set(res.seen.values())))))
+    res.nontrivial.add((sc["style"], sc["mode"], tuple(sc["kinds"])))
     with _CMD_LOCK:
         for f in futs.values():
             _CMD_OWNER.pop(id(f.cmd), None)
@@ -412,6 +403,9 @@ def corrupt_traces(traces: list[dict]) -> list[tuple[str, dict]]:
     """Negative controls for the trace specification (each must be rejected)."""
     import copy
 
+    # a rejected log makes TLC explore everything the model can still do: derive the controls from the
+    # logs with the fewest jobs
+    traces = sorted(traces, key=lambda t: (sum(1 for e in t["events"] if e["e"] == "submit_call"), len(t["events"])))
     out = []
     for t in traces:  # result observed before the result was set
         ev = t["events"]
